@@ -92,7 +92,9 @@ func addField(e *zerolog.Event, name, vc string, i int) (*zerolog.Event, interfa
 		v := fmt.Sprintf("v%d", i)
 		return e.Str(name, v), v
 	case "quote":
-		v := []string{"two words", "q\"uote", "back\\slash", "tab\there", "café", "", "line\nbreak", "del\x7fdel", "tilde~tilde", "u80\u0080", "us\x1f"}[i%11]
+		// ... also with the offending rune FIRST (and nothing else to quote for)
+		v := []string{"two words", "q\"uote", "back\\slash", "tab\there", "café", "", "line\nbreak", "del\x7fdel", "tilde~tilde", "u80\u0080", "us\x1f",
+			"\tb", "été", "\x1b[31mred", "\nnext=line", "\x7fd"}[i%16]
 		return e.Str(name, v), v
 	case "int":
 		v := []int64{0, -7, 9007199254740993, 42}[i%4]
